@@ -3,6 +3,6 @@ CONSTANTS
  DrainBug = FALSE
  LinkCode = FALSE
  DupPathBug = FALSE
- Ids <- SmallIds
-INVARIANTS PropHolds Ordered PassBound
+ Ids <- BigBfsIds
+INVARIANTS PropHolds PropExact Ordered PassBound
 CHECK_DEADLOCK TRUE
